@@ -8,18 +8,19 @@ namespace TV.Simplify
 set_option linter.unusedSectionVars false
 variable {α : Type} [Add α] [Sub α] [Mul α] [Div α] [Neg α] [BEq α] [OfNat α 0] [OfNat α 1] [OfNat α 2] [LinearOrder α]
 
-/-- ARGMIN (strict `<`, first minimum, NaN skipped): either no entry is a number below the initial minimum and the
+/-- the strict scan (ARGMIN once an index is recorded, and ARGMIN itself on a column of numbers below its start value:
+`argmin_eq_strict`; strict `<`, first minimum, NaN skipped): either no entry is a number below the initial minimum and the
 initial index is returned, or the index returned holds a number below it that no other number of the column undercuts -/
-theorem argminLoop_min (col : List (Option α)) (i : Nat) (m : α) (id0 : Nat) :
-    (argminLoop col i m id0 = id0 ∧ ∀ (j : Nat) (v : α), col[j]? = some (some v) → m ≤ v) ∨
-    (∃ (j0 : Nat) (w : α), argminLoop col i m id0 = i + j0 ∧ col[j0]? = some (some w) ∧ w < m ∧
+theorem argminLoopS_min (col : List (Option α)) (i : Nat) (m : α) (id0 : Nat) :
+    (argminLoopS col i m id0 = id0 ∧ ∀ (j : Nat) (v : α), col[j]? = some (some v) → m ≤ v) ∨
+    (∃ (j0 : Nat) (w : α), argminLoopS col i m id0 = i + j0 ∧ col[j0]? = some (some w) ∧ w < m ∧
       ∀ (j : Nat) (v : α), col[j]? = some (some v) → w ≤ v) := by
   induction col generalizing i m id0 with
   | nil => left; exact ⟨rfl, fun j v h => by simp at h⟩
   | cons c rest ih =>
     cases c with
     | none =>
-      rw [argminLoop]
+      rw [argminLoopS]
       rcases ih (i + 1) m id0 with ⟨e, h⟩ | ⟨j0, w, e, hw, hlt, h⟩
       · left
         refine ⟨e, fun j v hj => ?_⟩
@@ -32,7 +33,7 @@ theorem argminLoop_min (col : List (Option α)) (i : Nat) (m : α) (id0 : Nat) :
         | zero => simp at hj
         | succ j => exact h j v (by simpa using hj)
     | some x =>
-      rw [argminLoop]
+      rw [argminLoopS]
       by_cases hx : x < m
       · simp only [hx, ↓reduceIte]
         right
@@ -87,8 +88,31 @@ theorem vwStop_above (big eps2 : α) (L : List (Fix α)) (S : VState α) (hv : V
   obtain ⟨w, hw, hlt⟩ := stopOf_true eps2 _ hst
   have hcol : (S.map (·.2))[argmin big (S.map (·.2))]? = some (some w) := by rw [List.getElem?_map]; exact hw
   have hci : (S.map (·.2))[i]? = some (some (areaFix q0 q1 q2)) := by rw [List.getElem?_map, f1]; rfl
-  unfold argmin at hcol
-  rcases argminLoop_min (S.map (·.2)) 0 big 0 with ⟨e, _⟩ | ⟨j0, w', e, hw', _, hmin⟩
+  have hlt' : ∀ (j : Nat) (v : α), (S.map (·.2))[j]? = some (some v) → v < big := by
+    intro j v hj
+    rw [List.getElem?_map] at hj
+    cases hx : S[j]? with
+    | none => rw [hx] at hj; cases hj
+    | some e =>
+      obtain ⟨p, c⟩ := e
+      rw [hx] at hj
+      simp only [Option.map_some, Option.some.injEq] at hj
+      subst hj
+      have hjl : j < S.length := (List.getElem?_eq_some_iff.mp hx).1
+      have hj0 : 0 < j := by
+        cases j with
+        | zero => obtain ⟨q, hq⟩ := hv.first; rw [hq] at hx; simp at hx
+        | succ j => omega
+      have hj1 : j + 1 < S.length := by
+        by_cases hc : j = S.length - 1
+        · obtain ⟨q, hq⟩ := hv.last; rw [← hc] at hq; rw [hq] at hx; simp at hx
+        · omega
+      obtain ⟨p', v', e', hv'⟩ := hv.mid j hj0 hj1
+      rw [hx] at e'
+      simp only [Option.some.injEq, Prod.mk.injEq] at e'
+      rw [e'.2]; exact hv'
+  rw [argmin_eq_strict big _ hlt'] at hcol
+  rcases argminLoopS_min (S.map (·.2)) 0 big 0 with ⟨e, _⟩ | ⟨j0, w', e, hw', _, hmin⟩
   · rw [e, List.getElem?_map] at hcol
     obtain ⟨p, hp⟩ := hv.first
     rw [hp] at hcol
